@@ -513,7 +513,7 @@ def replay_witness(unit_name, case, ob):
 def _register_shared_args():
     from . import C18 as _C18
     unit(P, "Catalog.from_*.arguments", fuc=["yaw.catalog.catalog:Catalog.from_dataframe", "yaw.catalog.catalog:Catalog.from_file", "yaw.catalog.catalog:Catalog.from_random"],
-         cases=[dict(which=w, mode=m) for w in ("from_dataframe", "from_file", "from_random") for m in ("apply", "divide", "create") if not (w == "from_random" and m == "divide")])(_C18.u_from_args)
+         cases=[dict(which=w, mode=m) for w in ("from_dataframe", "from_file", "from_random") for m in ("apply", "divide", "create", "apply+num", "divide+num") if not (w == "from_random" and m.startswith("divide"))])(_C18.u_from_args)
 
 
 # _register_shared_args() is called by the driver after this module is fully imported (no import cycles)
